@@ -1662,6 +1662,14 @@ impl SctpInner {
     }
 
     async fn handle_init(&self, _remote_tag: u32, chunk: Bytes) -> Result<()> {
+        // RFC 4960 §5.2.2: an INIT that arrives once the association is established
+        // (a duplicated or late datagram) must not change the TCB. Processing it used
+        // to reset cumulative_tsn_ack, both verification tags and next_tsn, which
+        // stalled the association and re-delivered replayed DATA.
+        if *self.state.lock() == SctpState::Connected {
+            debug!("SCTP: ignoring INIT received in established state");
+            return Ok(());
+        }
         let mut buf = chunk;
         if buf.remaining() < 16 {
             // Fixed params
@@ -1729,6 +1737,12 @@ impl SctpInner {
     }
 
     async fn handle_init_ack(&self, chunk: Bytes) -> Result<()> {
+        // RFC 4960 §5.2.3: an INIT ACK received in the established state is discarded
+        // (it used to reset cumulative_tsn_ack and re-send COOKIE ECHO).
+        if *self.state.lock() == SctpState::Connected {
+            debug!("SCTP: ignoring INIT ACK received in established state");
+            return Ok(());
+        }
         self.t1_cancel();
 
         let mut buf = chunk;
